@@ -233,7 +233,7 @@ func encodeRec(r *Rec) Vals {
 // payloads ----------------------------------------------------------------
 
 // NPayloads is the number of payload shapes setPayload knows.
-const NPayloads = 15
+const NPayloads = 20
 
 func ip(i int) *int { return &i }
 
@@ -281,6 +281,17 @@ func setPayload(r *Rec, n int) {
 		r.G = []Grp{{Tags: []string{}, Inner: []Sub{}}}
 		r.J = [][]int{{7}}
 		r.I = []interface{}{[]interface{}{1.0, 2.0}, map[string]interface{}{"z": []interface{}{"q"}}}
+	// free-form payloads holding the ZERO of their dynamic type: a value, not "nothing"
+	case 15:
+		r.I = 0.0
+	case 16:
+		r.I = ""
+	case 17:
+		r.I = false
+	case 18:
+		r.I = []interface{}{0.0, "", false, map[string]interface{}{}}
+	case 19:
+		r.I = map[string]interface{}{"z": 0.0, "e": "", "f": false, "n": nil}
 	}
 }
 
